@@ -113,6 +113,17 @@ class ExecInstruction(MichelsonInstruction, prim='EXEC'):
         return cls(item)
 
 
+def _without_annots(expr):
+    if isinstance(expr, list):
+        return [_without_annots(x) for x in expr]
+    if isinstance(expr, dict) and 'prim' in expr:
+        res = {'prim': expr['prim']}
+        if expr.get('args'):
+            res['args'] = [_without_annots(x) for x in expr['args']]
+        return res
+    return expr
+
+
 class ApplyInstruction(MichelsonInstruction, prim='APPLY'):
     @classmethod
     def execute(cls, stack: MichelsonStack, stdout: List[str], context: AbstractContext):
@@ -122,9 +133,11 @@ class ApplyInstruction(MichelsonInstruction, prim='APPLY'):
         left_type, right_type = lambda_.args[0].args
         left.assert_type_equal(left_type)
 
+        # the captured value is pushed at its bare type: annotations are not part of a type (and must not reach PACK)
+        push_type = MichelsonType.match(_without_annots(left_type.as_micheline_expr()))
         new_value = MichelineSequence.create_type(
             args=[
-                PushInstruction.create_type(args=[left_type, left.to_literal()]),
+                PushInstruction.create_type(args=[push_type, left.to_literal()]),
                 PairInstruction,
                 lambda_.value,
             ]
